@@ -82,3 +82,70 @@ pub struct CitedLocation {
     /// End byte offset
     pub end: usize,
 }
+
+/// Schedule points and memory events of the list implementation
+///
+/// With no hook installed every call is a no-op.
+pub mod sched {
+    use std::sync::{Arc, RwLock};
+
+    /// Something the list implementation is doing right now
+    #[derive(Clone, Copy, Debug, PartialEq, Eq)]
+    pub enum Event {
+        /// An element pointer has left the critical section of the list at
+        /// `list`. No lock is held at this point.
+        PtrEscaped {
+            /// Address of the shared list
+            list: usize,
+            /// Address of the element
+            addr: usize,
+        },
+        /// The pointer that escaped earlier is about to be read
+        PtrUse {
+            /// Address of the shared list
+            list: usize,
+            /// Address of the element
+            addr: usize,
+        },
+        /// `concat` has released the first operand and not yet locked the
+        /// second. Only the lock of the new private list is held.
+        ConcatMiddle {
+            /// Address of the second operand
+            list: usize,
+        },
+        /// A list buffer has been reallocated
+        BufferRealloc {
+            /// Old start address
+            old: usize,
+            /// New start address
+            new: usize,
+            /// Old size in bytes
+            old_bytes: usize,
+        },
+        /// A list buffer has been freed
+        BufferFreed {
+            /// Old start address
+            old: usize,
+            /// Old size in bytes
+            old_bytes: usize,
+        },
+    }
+
+    /// The type of an installed hook
+    pub type Hook = Arc<dyn Fn(Event) + Send + Sync>;
+
+    static HOOK: RwLock<Option<Hook>> = RwLock::new(None);
+
+    /// Install (or remove) the hook that receives all events
+    pub fn install(hook: Option<Hook>) {
+        *HOOK.write().unwrap() = hook;
+    }
+
+    /// Report an event to the installed hook, if any
+    pub fn point(event: Event) {
+        let hook = HOOK.read().unwrap().clone();
+        if let Some(hook) = hook {
+            hook(event)
+        }
+    }
+}
